@@ -11,6 +11,9 @@ CHECKS = {
     "C04": dict(cat="translation_validation", tech="symbolic execution of the real assembler (public API) on free geometry with an uninterpreted kernel; entrywise polynomial identities with UFs decided by cvc5/z3",
                 text="Two paths through the real code (operator on the subspace vs T' A_loc T with the operator on the element-wise full-grid space) are proved equal entry by entry for every geometry and kernel value, on base meshes of <= 6 (8) elements, regular order <= 2 (3), singular order 1 (2), for P1/DP0/DP1/RWG/SNC spaces with segment, support-element and boundary-dof options and scalar, hypersingular and Maxwell operators.",
                 ref="3/C04"),
+    "C05": dict(cat="other", tech="symbolic execution of the real Helmholtz / modified Helmholtz / Laplace kernel functions (regular, singular, far-field, FMM helper) and of the constructors' wavenumber dispatch; QF_NRA queries with abstracted sqrt/exp/cos/sin + congruence/parity lemmas; forward-mode jets for the first-order term in k (z3/cvc5)",
+                text="Bounded symbolic verification at kernel level for ALL real points, normals and wavenumbers: Helmholtz(0,w) == modified Helmholtz(w) kernels and the constructors' dispatch for k = i*w (boundary and potential), K(-conj k) == conj K(k), single-layer symmetry and ADL(x,y) == DL(y,x), singular == regular variants, and d/dk at k=0 of the Helmholtz kernels (i/4pi resp. 0). The remainder bounds and the symmetry of assembled singular parts are outside the claim. One genuine defect was repaired.",
+                ref="3/C05"),
     "C06": dict(cat="translation_validation", tech="symbolic execution of the hypersingular / Maxwell / single-layer assemblers through the public API with an uninterpreted kernel and symbolic complex wavenumber; entrywise polynomial identities (cvc5/z3)",
                 text="The decomposition identities W = sum C'V0C - k^2 sum N'V1N (Laplace, Helmholtz, modified Helmholtz) and E = -ik sum R'V1R - (1/ik) D'V0D are proved entry by entry (regular + singular parts) for every geometry, kernel value and wavenumber on base meshes of <= 6 (8) elements; W.1 = 0 on closed meshes; symmetry of the non-adjacent EFIE block under a symmetric kernel.",
                 ref="3/C06"),
